@@ -145,7 +145,21 @@ EndJudge(e) ==
           /\ CReport("C05_Meta", e, \A n \in live : \A mm \in e.members :
                         (mm.name \in ViewOf(e.views, n)) => MetaIn(e.views, n, mm.name) = mm.meta)
 
+\* Conformance of the dissemination choices with the Cluster model (GossipTargets, the push/pull partner):
+\* gossip goes to members held alive or suspect and to the recently dead, never to the node itself, to
+\* members that left or to the long dead; the anti-entropy partner is a member held alive.
+CDrift(name, e, ok) == IF ok THEN TRUE ELSE PrintT(<<"DRIFT", name, l, e.case, e.g>>)
+PickJudge(e) ==
+  /\ (e.ev = "GossipPick") =>
+        /\ CDrift("gossip-target", e, e.node # e.n /\ (e.info \in {"alive", "suspect"}
+                                                       \/ (e.info = "dead" /\ e.age <= e.cfg.gossipDead)))
+        /\ (IF e.info = "dead" THEN PrintT(<<"STAT2", "gossip_to_the_dead", 1, 1>>) ELSE TRUE)
+  /\ (e.ev = "PushPullPick") =>
+        /\ CDrift("pushpull-partner", e, e.node # e.n /\ e.info = "alive")
+        /\ PrintT(<<"STAT2", "pushpull_picks", 1, 1>>)
+
 CJudge(e) ==
+  /\ PickJudge(e)
   /\ C04Judge(e)
   /\ ProbeJudge(e)
   /\ (e.ev = "End") => EndJudge(e)
